@@ -19,7 +19,8 @@ thread_local! {
     static DEFAULT: ExpectationMaker = ExpectationMaker::new(RuleRegistry::default());
 }
 
-const BASES: [&str; 11] = ["", "foo", "a b", "(x)", "é", "a\tb", "^a$", "[", "a\\tb", "a*", "a\\\\b"];
+// (the last three: a backslash next to unprintable characters that are no control characters - format, private use, unassigned)
+const BASES: [&str; 14] = ["", "foo", "a b", "(x)", "é", "a\tb", "^a$", "[", "a\\tb", "a*", "a\\\\b", "C:\\temp \u{200d}", "a\\b\u{e000}", "\u{378}\\x41"];
 const KINDS: [&str; 10] = ["equal", "eq", "no-eol", "escaped", "esc", "glob", "gl", "regex", "re", ""];
 const QUANTS: [&str; 4] = ["", "?", "*", "+"];
 const ODD: [&str; 12] = [" ()", " (foo)", " (glob )", "(glob)", " (GLOB)", " (re?*)", " (?+)", "  (glob)", " ( glob)", "\u{a0}(glob)", "\t(re?)", "\u{3000}(+)"];
